@@ -11,6 +11,10 @@ mod c28;
 mod c29;
 mod c20;
 mod c41;
+mod c24;
+mod c25;
+mod c34;
+mod c10;
 mod c05;
 mod c26;
 mod c27;
@@ -62,6 +66,8 @@ fn main() {
     };
     let code = match prop {
         "C04" => histchecks::c04(tier, replay.clone()),
+        "C12" => histchecks::c12(tier, replay.clone()),
+        "C21" => histchecks::c21(tier, replay.clone()),
         "C09" => histchecks::c09(tier, replay.clone()),
         "C06" => histchecks::c06(tier, replay.clone()),
         "C07" => histchecks::c07(tier, replay.clone()),
@@ -73,6 +79,10 @@ fn main() {
         "C29" => c29::main(tier, replay.clone()),
         "C20" => c20::main(tier, replay.clone()),
         "C41" => c41::main(tier, replay.clone()),
+        "C24" => c24::main(tier, replay.clone()),
+        "C25" => c25::main(tier, replay.clone()),
+        "C34" => c34::main(tier, replay.clone()),
+        "C10" => c10::main(tier, replay.clone()),
         "C05" => c05::main(tier, replay.clone()),
         "C26" => c26::main(tier, replay.clone()),
         "C27" => c27::main(tier, replay.clone()),
